@@ -355,7 +355,7 @@ theorem appendIndexed_fr {n : Sizes} {g : Grows} {h h' : Heap} {prev v : Var} {s
       cases e
       exact (setIndexedElem_fr (h' := r.1) (l' := r.2.1) (ix' := r.2.2) hn ol oi hr).1
 
-/-- `assignVal` writes only fresh storage — in the repaired variant always, in today's variant
+/-- `assignVal` writes only fresh storage — in the current variant always, in the pinned variant
     provided a `+=word` onto an indexed array finds storage the child owns. -/
 theorem assignVal_fr {n : Sizes} {fx : Bool} {g : Grows} {h h' : Heap} {prev v : Var} {append : Bool}
     {rhs : Rhs} {vt : ValType} (hn : n.le h)
